@@ -7,7 +7,7 @@ From stdpp Require Import base option list numbers fin_maps nmap.
 From Verif.Base Require Import Bytes.
 From Verif.Topics Require Import Predefined.
 From Verif.Codec Require Import Packets Decode Encode RefParse.
-From Verif.Checkers Require Import ChkCodec ChkGw ChkGw2 ChkGw3 ChkCl ChkCl2.
+From Verif.Checkers Require Import ChkCodec ChkGw ChkGw2 ChkGw3 ChkGw4 ChkCl ChkCl2 ChkCl3 ChkE2E.
 From Verif.Gateway Require Import GwTypes GwStep Sound_C07C08C09.
 From Verif.Match Require Import Match.
 From Verif.Util Require Import IdSeq.
@@ -31,4 +31,5 @@ Extraction "model.ml"
   q_new q_step q_run st_new st_step st_run txn_new txn_step txn_run
   parse_options tool_cfg gateway_starts client_tool_starts parse_line
   chk_C23c chk_C27 chk_C17 chk_C31c cmon_init cmon_step
-  sys_init sys_step sys_run broker_init cl_next_deadline gw_next_deadline.
+  sys_init sys_step sys_run broker_init cl_next_deadline gw_next_deadline
+  emon_init emon_step mon6_init mon6_step chk_C06c.
